@@ -19,6 +19,7 @@ def dispatch (j : Json) : List (String × Json) :=
   | "yparse" => Y.handle j
   | "ytypes" => T.handle j
   | "ypath" => S.handlePath j
+  | "ydata" => S.handleData j
   | "yvals" => V.handle j
   | k => [("m", Json.str ("unknown-kind:" ++ k)), ("s", Json.str "unknown-kind")]
 
